@@ -478,51 +478,289 @@ Section Rev.
         apply (HL (ip s + 1) _ (tok / 16) r Hrl); try assumption; lia.
   Qed.
 
-  Lemma safe_top_at_iend s :
+  (* ====================== the fast loop ====================== *)
+  Lemma fast_match_any s offset length :
+    0 <= offset <= 65535 -> 4 <= length -> 0 <= op s -> op s + length < oend - 64 ->
+    match fast_match false dict oend lowPrefix rlow dictm dictSize s offset length with
+    | Err _ => True
+    | Done _ => False
+    | Cont f s' => ip s' = ip s /\
+                   (1 <= offset -> op s' = op s + length /\ same_below (dm s) (dm s') (op s) /\
+                                   frec (vget (dm s')) offset (op s) (op s + length) /\
+                                   lowPrefix - hroom <= op s - offset)
+    end.
+  Proof.
+    intros Ho Hlen Hop Hroom.
+    assert (Hip : match fast_match false dict oend lowPrefix rlow dictm dictSize s offset length with
+                  | Cont _ s' => ip s' = ip s | Done _ => False | Err _ => True end).
+    { unfold fast_match, ext_match. cbv zeta. cbn [andb negb].
+      repeat match goal with
+      | |- match (if ?c then _ else _) with _ => _ end => destruct c
+      end; try exact I; reflexivity. }
+    destruct (checkOffset dictSize && (op s - offset + dictSize <? lowPrefix)) eqn:Echk.
+    { unfold fast_match. cbv zeta. rewrite Echk. exact I. }
+    assert (Hacc : lowPrefix - hroom <= op s - offset).
+    { unfold DecRefineSafe.hroom. destruct (is_extdict dict) eqn:Ee.
+      - unfold checkOffset in Echk. lia.
+      - rewrite (Hext eq_refl) in Echk. unfold checkOffset in Echk. lia. }
+    destruct (Z_le_gt_dec 1 offset) as [H1|H0].
+    - pose proof (fast_match_sim false dict oend lowPrefix rlow dictm dictSize HlowP Hds s offset length H1 Hacc Hlen Hop Hroom) as H.
+      destruct (fast_match false dict oend lowPrefix rlow dictm dictSize s offset length) as [f s'|s'|s'];
+        cbn [is_cont_any] in H; try contradiction; try exact I.
+      destruct H as (Ha & Hb & Hc & Hd). split; [exact Ha|]. intros _. repeat split; assumption.
+    - destruct (fast_match false dict oend lowPrefix rlow dictm dictSize s offset length) as [f s'|s'|s']; try exact Hip; try exact I.
+      split; [exact Hip|]. intros; lia.
+  Qed.
+
+  (* from the offset field on, fast loop *)
+  Lemma fast_offset_cases (i o : Z) (m1 : mem) kf tok o1 o2 (r3 : list Z) rout lits :
+    src_at srcm i (o1 :: o2 :: r3) -> bytes (o1 :: o2 :: r3) -> i + Z.of_nat (length (o1 :: o2 :: r3)) = iend ->
+    0 <= tok < 256 -> 0 <= o -> 0 <= i ->
+    out_at (vget m1) (o + Z.of_nat (length lits)) (rev lits ++ rout) -> avail o rout ->
+    match fast_offset false dict srcm iend oend lowPrefix rlow dictm dictSize
+            (mkD i (o + Z.of_nat (length lits)) m1 kf) tok with
+    | Err _ => True
+    | Done _ => False
+    | Cont f s' =>
+        exists ml (r4 : list Z), read_len (tok mod 16) r3 = Some (ml, r4) /\ (length r4 <= length r3)%nat /\
+          ip s' = i + 2 + (Z.of_nat (length r3) - Z.of_nat (length r4)) /\
+          seq_ok o rout lits (o1 + 256 * o2) ml s'
+    end.
+  Proof.
+    intros Hs Hb Hie Htok Ho Hi O Hav.
+    destruct (nibbles tok Htok) as [_ Hnib].
+    pose proof (readLE16_src _ _ _ _ _ Hs) as Hle.
+    destruct (src_at_cons _ _ _ _ Hs) as [_ Hs1]. destruct (src_at_cons _ _ _ _ Hs1) as [_ Hs2].
+    destruct (bytes_cons _ _ Hb) as [Hb1 Hb']. destruct (bytes_cons _ _ Hb') as [Hb2 Hb3].
+    replace (i + 1 + 1) with (i + 2) in Hs2 by lia. cbn [length] in Hie.
+    set (off := o1 + 256 * o2) in *.
+    assert (Hoff : 0 <= off <= 65535) by (unfold off; lia).
+    (* the two ways a match can complete *)
+    assert (Hvia_safe : forall p kf' ml (r4 : list Z),
+              read_len (tok mod 16) r3 = Some (ml, r4) -> (length r4 <= length r3)%nat -> tok mod 16 <= ml ->
+              p = i + 2 + (Z.of_nat (length r3) - Z.of_nat (length r4)) ->
+              match safe_match false dict oend lowPrefix rlow dictm dictSize (mkD p (o + Z.of_nat (length lits)) m1 kf') off (ml + 4) with
+              | Err _ => True | Done _ => False
+              | Cont f s' => exists ml (r4 : list Z), read_len (tok mod 16) r3 = Some (ml, r4) /\ (length r4 <= length r3)%nat /\
+                               ip s' = i + 2 + (Z.of_nat (length r3) - Z.of_nat (length r4)) /\ seq_ok o rout lits off ml s'
+              end).
+    { intros p kf' ml r4 Hrl Hl Hml Hp.
+      pose proof (safe_match_any (mkD p (o + Z.of_nat (length lits)) m1 kf') off (ml + 4) Hoff ltac:(lia) ltac:(cbn [op]; lia)) as HM.
+      destruct (safe_match false dict oend lowPrefix rlow dictm dictSize (mkD p (o + Z.of_nat (length lits)) m1 kf') off (ml + 4)) as [f s'|s'|s']; try exact HM.
+      destruct HM as (_ & Hip' & Hm). cbn [ip op dm] in *.
+      exists ml, r4. split; [exact Hrl|]. split; [exact Hl|]. split; [lia|].
+      apply (seq_ok_intro o m1); try assumption; try lia.
+      intros H1o. destruct (Hm H1o) as (Ha & Hb4 & Hc & Hd & He). repeat split; try assumption; lia. }
+    assert (Hvia_fast : forall p kf' ml (r4 : list Z),
+              read_len (tok mod 16) r3 = Some (ml, r4) -> (length r4 <= length r3)%nat -> tok mod 16 <= ml ->
+              p = i + 2 + (Z.of_nat (length r3) - Z.of_nat (length r4)) ->
+              o + Z.of_nat (length lits) + (ml + 4) < oend - 64 ->
+              match fast_match false dict oend lowPrefix rlow dictm dictSize (mkD p (o + Z.of_nat (length lits)) m1 kf') off (ml + 4) with
+              | Err _ => True | Done _ => False
+              | Cont f s' => exists ml (r4 : list Z), read_len (tok mod 16) r3 = Some (ml, r4) /\ (length r4 <= length r3)%nat /\
+                               ip s' = i + 2 + (Z.of_nat (length r3) - Z.of_nat (length r4)) /\ seq_ok o rout lits off ml s'
+              end).
+    { intros p kf' ml r4 Hrl Hl Hml Hp Hroom.
+      pose proof (fast_match_any (mkD p (o + Z.of_nat (length lits)) m1 kf') off (ml + 4) Hoff ltac:(lia) ltac:(cbn [op]; lia) ltac:(cbn [op]; lia)) as HM.
+      destruct (fast_match false dict oend lowPrefix rlow dictm dictSize (mkD p (o + Z.of_nat (length lits)) m1 kf') off (ml + 4)) as [f s'|s'|s']; try exact HM.
+      destruct HM as (Hip' & Hm). cbn [ip op dm] in *.
+      exists ml, r4. split; [exact Hrl|]. split; [exact Hl|]. split; [lia|].
+      apply (seq_ok_intro o m1); try assumption; try lia.
+      intros H1o. destruct (Hm H1o) as (Ha & Hb4 & Hc & Hd). repeat split; try assumption; lia. }
+    unfold fast_offset. cbv zeta. cbn [ip op dm ok]. rewrite Hle. fold off.
+    destruct (tok mod 16 =? ML_MASK) eqn:E15; cbv beta iota.
+    - pose proof (rvl_rev r3 (i + 2) (iend - LASTLITERALS + 1) false (kf && rd_src iend i 2) Hs2 ltac:(lia) ltac:(fin)) as HR.
+      destruct (rvl srcm iend (i + 2) (iend - LASTLITERALS + 1) false (kf && rd_src iend i 2)) as [[[addl|] p'] k']; [|exact I].
+      destruct HR as (v & r4 & H1 & H2 & H3 & H4 & H5).
+      pose proof (read_ext_ge _ _ _ _ Hb3 H1) as Hv.
+      assert (Hrl : read_len (tok mod 16) r3 = Some (v, r4)).
+      { unfold read_len. assert (E : (tok mod 16 =? 15) = true) by fin. rewrite E. exact H1. }
+      replace (tok mod 16 + addl + MINMATCH) with (v + 4) by fin.
+      destruct (o + Z.of_nat (length lits) + (v + 4) >=? oend - FASTLOOP_SAFE_DISTANCE) eqn:Efar; cbv beta iota.
+      + apply (Hvia_safe p' k' v r4 Hrl); lia.
+      + apply (Hvia_fast p' k' v r4 Hrl); try lia. fin.
+    - assert (Hrl : read_len (tok mod 16) r3 = Some (tok mod 16, r3)).
+      { unfold read_len. assert (E : (tok mod 16 =? 15) = false) by fin. rewrite E. reflexivity. }
+      replace (tok mod 16 + MINMATCH) with (tok mod 16 + 4) by fin.
+      destruct (o + Z.of_nat (length lits) + (tok mod 16 + 4) >=? oend - FASTLOOP_SAFE_DISTANCE) eqn:Efar; cbv beta iota.
+      + apply (Hvia_safe (i + 2) _ (tok mod 16) r3 Hrl); lia.
+      + destruct ((is_prefix64k dict || (o + Z.of_nat (length lits) - off >=? lowPrefix)) && (off >=? 8)) eqn:E18; cbv beta iota.
+        * (* 18-byte copy *)
+          exists (tok mod 16), r3. split; [exact Hrl|]. split; [lia|]. cbn [ip]. split; [lia|].
+          assert (Hmatge : lowPrefix <= o + Z.of_nat (length lits) - off).
+          { destruct (is_prefix64k dict) eqn:E64; [specialize (Hp64 eq_refl); lia | fin]. }
+          pose proof (hroom_range dict dictSize) as Hhr.
+          destruct (copy18_lz m1 (o + Z.of_nat (length lits)) off) as [S R]; [fin|].
+          apply (seq_ok_intro o m1); try assumption; try lia.
+          intros H1o. cbn [op dm]. split; [lia|]. split; [exact S|]. split.
+          -- apply lzrec_v; [|lia|lia]. eapply lzrec_weaken; [exact R | lia | fin].
+          -- split; [lia | fin].
+        * apply (Hvia_fast (i + 2) _ (tok mod 16) r3 Hrl); try lia. fin.
+  Qed.
+
+  Definition top_post_any (s : dstate) (bs rout : list Z) (out : dout) : Prop :=
+    match out with
+    | Err _ => True
+    | Done s' =>
+        exists tok (r : list Z) ll (r1 lits : list Z),
+          bs = tok :: r /\ read_len (tok / 16) r = Some (ll, r1) /\ take (Z.to_nat ll) r1 = Some (lits, []) /\
+          op s' = op s + ll /\ op s' <= oend /\ out_at (vget (dm s')) (op s') (rev lits ++ rout)
+    | Cont f s' =>
+        exists tok (r : list Z) ll (r1 lits : list Z) o1 o2 (r3 : list Z) ml (r4 : list Z),
+          bs = tok :: r /\ read_len (tok / 16) r = Some (ll, r1) /\
+          take (Z.to_nat ll) r1 = Some (lits, o1 :: o2 :: r3) /\ read_len (tok mod 16) r3 = Some (ml, r4) /\
+          ip s' + Z.of_nat (length r4) = iend /\ (length r4 < length bs)%nat /\
+          seq_ok (op s) rout lits (o1 + 256 * o2) ml s'
+    end.
+
+  Lemma top_post_weaken s bs rout out : top_post s bs rout out -> top_post_any s bs rout out.
+  Proof. destruct out as [f s'|s'|s']; cbn [top_post top_post_any]; auto. intros [_ H]. exact H. Qed.
+
+  Lemma fast_top_cases s (bs rout : list Z) :
+    src_at srcm (ip s) bs -> bytes bs -> ip s + Z.of_nat (length bs) = iend -> 0 <= ip s < iend ->
+    0 <= op s -> out_at (vget (dm s)) (op s) rout -> avail (op s) rout ->
+    top_post_any s bs rout (fast_top false dict srcm iend oend lowPrefix rlow dictm dictSize s).
+  Proof.
+    intros Hs Hb Hie Hip Hop O Hav.
+    destruct bs as [|tok r]; [cbn [length] in Hie; lia|].
+    destruct (bytes_cons _ _ Hb) as [Htok Hbr].
+    destruct (src_at_cons _ _ _ _ Hs) as [Htokm Hsr].
+    destruct (nibbles tok Htok) as [Hn1 Hn2].
+    cbn [length] in Hie.
+    unfold fast_top. cbv zeta. rewrite Htokm.
+    (* exits through safe_lit *)
+    assert (HL : forall p1 kf ll (r1 : list Z), read_len (tok / 16) r = Some (ll, r1) ->
+               src_at srcm p1 r1 -> bytes r1 -> p1 + Z.of_nat (length r1) = iend -> 0 <= p1 -> 0 <= ll ->
+               top_post_any s (tok :: r) rout
+                 (safe_lit false dict srcm iend oend lowPrefix rlow dictm dictSize (mkD p1 (op s) (dm s) kf) tok ll)).
+    { intros p1 kf ll r1 Hrl Hs1 Hb1 Hie1 Hp1 Hll.
+      pose proof (safe_lit_cases p1 (op s) (dm s) kf tok r1 rout ll Hs1 Hb1 Hie1 Hp1 Htok Hll Hop O Hav) as HC.
+      destruct (safe_lit false dict srcm iend oend lowPrefix rlow dictm dictSize (mkD p1 (op s) (dm s) kf) tok ll) as [f s'|s'|s'];
+        cbn [lit_post top_post_any] in *; [| | exact I].
+      - destruct HC as (Hf & lits & o1 & o2 & r3 & ml & r4 & H1 & H2 & H3 & H4 & H5).
+        exists tok, r, ll, r1, lits, o1, o2, r3, ml, r4.
+        split; [reflexivity|]. split; [exact Hrl|]. split; [exact H1|]. split; [exact H2|].
+        destruct (take_spec _ _ _ _ H1) as [Er1 Hl]. unfold byte in *.
+        assert (length r1 = (length lits + S (S (length r3)))%nat) by (rewrite Er1, app_length; reflexivity).
+        apply read_len_shorter in Hrl. cbn [length].
+        split; [lia|]. split; [lia | exact H5].
+      - destruct HC as (lits & H1 & H2 & H3 & H4).
+        exists tok, r, ll, r1, lits. repeat split; assumption. }
+    (* exits through fast_offset: the literals [lits] of the run were copied (with slack) into m1 *)
+    assert (HF : forall p1 kf ll (r1 lits r2 : list Z) m1, read_len (tok / 16) r = Some (ll, r1) ->
+               src_at srcm p1 r1 -> bytes r1 -> p1 + Z.of_nat (length r1) = iend -> 0 <= p1 ->
+               take (Z.to_nat ll) r1 = Some (lits, r2) -> ll = Z.of_nat (length lits) -> (2 <= length r2)%nat ->
+               same_below (dm s) m1 (op s) ->
+               (forall j, (j < length lits)%nat -> get m1 (op s + Z.of_nat j) = nth j lits 0) ->
+               top_post_any s (tok :: r) rout
+                 (fast_offset false dict srcm iend oend lowPrefix rlow dictm dictSize (mkD (p1 + ll) (op s + ll) m1 kf) tok)).
+    { intros p1 kf ll r1 lits r2 m1 Hrl Hs1 Hb1 Hie1 Hp1 Ht Ell Hr2 S1 L1.
+      destruct r2 as [|o1 [|o2 r3]]; try (cbn [length] in Hr2; lia).
+      destruct (take_spec _ _ _ _ Ht) as [Er1 _]. unfold byte in *. subst r1.
+      destruct (src_at_app _ _ _ _ Hs1) as [Hsl Hs2]. destruct (bytes_app _ _ Hb1) as [_ Hb2].
+      rewrite app_length in Hie1. cbn [length] in Hie1. subst ll.
+      pose proof (fast_offset_cases (p1 + Z.of_nat (length lits)) (op s) m1 kf tok o1 o2 r3 rout lits Hs2 Hb2) as HA.
+      destruct (fast_offset false dict srcm iend oend lowPrefix rlow dictm dictSize
+                  (mkD (p1 + Z.of_nat (length lits)) (op s + Z.of_nat (length lits)) m1 kf) tok) as [f s'|s'|s'];
+        [ | exfalso; apply HA; try assumption; try (cbn [length]; lia); apply lits_out_v with (m := dm s); assumption | exact I ].
+      destruct HA as (ml & r4 & H1 & H2 & H3 & H4); try assumption; try (cbn [length]; lia).
+      { apply lits_out_v with (m := dm s); assumption. }
+      cbn [top_post_any].
+      exists tok, r, (Z.of_nat (length lits)), (lits ++ o1 :: o2 :: r3), lits, o1, o2, r3, ml, r4.
+      split; [reflexivity|]. split; [exact Hrl|]. split; [exact Ht|]. split; [exact H1|].
+      apply read_len_shorter in Hrl. rewrite app_length in Hrl. cbn [length] in *.
+      split; [lia|]. split; [lia | exact H4]. }
+    destruct (tok / 16 =? RUN_MASK) eqn:E15; cbv beta iota.
+    - pose proof (rvl_rev r (ip s + 1) (iend - RUN_MASK) true (ok s && rd_src iend (ip s) 1) Hsr ltac:(lia) ltac:(fin)) as HR.
+      destruct (rvl srcm iend (ip s + 1) (iend - RUN_MASK) true (ok s && rd_src iend (ip s) 1)) as [[[addl|] p'] k']; [|exact I].
+      destruct HR as (v & r1 & H1 & H2 & H3 & H4 & H5).
+      assert (Hrl : read_len (tok / 16) r = Some (v, r1)).
+      { unfold read_len. assert (E : (tok / 16 =? 15) = true) by fin. rewrite E. exact H1. }
+      destruct (read_len_suffix srcm iend _ _ _ _ (ip s + 1) Hn1 Hrl Hbr Hsr) as (_ & Hv & _ & Hs1 & Hb1).
+      replace (tok / 16 + addl) with v by fin.
+      unfold byte in *. rewrite <- H3 in Hs1.
+      destruct ((op s + v >? oend - 32) || (p' + v >? iend - 32)) eqn:Enear; cbv beta iota.
+      + apply (HL p' k' v r1 Hrl); try assumption; lia.
+      + destruct (take_total (Z.to_nat v) r1) as (lits & r2 & Ht & Hr1 & Hlen); [lia|].
+        unfold byte in *.
+        apply (HF p' _ v r1 lits r2 _ Hrl); try assumption; try lia.
+        * subst r1. rewrite app_length in *. lia.
+        * apply wild32_in_same_below.
+        * replace v with (Z.of_nat (length lits)) by lia. apply wild32_in_lits.
+          subst r1. apply (src_at_app _ _ _ _ Hs1).
+    - assert (Hrl : read_len (tok / 16) r = Some (tok / 16, r)).
+      { unfold read_len. assert (E : (tok / 16 =? 15) = false) by fin. rewrite E. reflexivity. }
+      destruct (ip s + 1 <=? iend - (16 + 1)) eqn:E17; cbv beta iota.
+      + destruct (take_total (Z.to_nat (tok / 16)) r) as (lits & r2 & Ht & Hr1 & Hlen); [fin|].
+        unfold byte in *.
+        apply (HF (ip s + 1) _ (tok / 16) r lits r2 _ Hrl); try assumption; try lia.
+        * subst r. rewrite app_length in *. fin.
+        * apply blit_same_below.
+        * apply (blit_lits srcm); [|fin]. subst r. apply (src_at_app _ _ _ _ Hsr).
+      + apply (HL (ip s + 1) _ (tok / 16) r Hrl); try assumption; lia.
+  Qed.
+
+  Lemma step_at_iend (fast : bool) s :
     ip s = iend -> 0 <= ip s ->
-    match safe_top false dict srcm iend oend lowPrefix rlow dictm dictSize s with
+    match (if fast then fast_top false dict srcm iend oend lowPrefix rlow dictm dictSize s
+           else safe_top false dict srcm iend oend lowPrefix rlow dictm dictSize s) with
     | Err s' => True | _ => False end.
   Proof.
     intros Hi Hip.
     pose proof (Hsrc (ip s)) as Htok.
     destruct (nibbles _ Htok) as [Hn _].
-    unfold safe_top. cbv zeta.
-    assert (Esc : negb (get srcm (ip s) / 16 =? RUN_MASK) && ((ip s + 1 <? shortiend iend) && (op s <=? shortoend oend)) = false) by fin.
-    rewrite Esc. cbv beta iota.
-    destruct (get srcm (ip s) / 16 =? RUN_MASK) eqn:E15; cbv beta iota.
-    - unfold rvl. assert (E : true && (ip s + 1 >=? iend - RUN_MASK) = true) by fin. rewrite E. exact I.
-    - unfold safe_lit. cbv zeta. cbn [ip op dm negb andb orb].
+    assert (Hlit : forall kf,
+      match safe_lit false dict srcm iend oend lowPrefix rlow dictm dictSize (mkD (ip s + 1) (op s) (dm s) kf) (get srcm (ip s)) (get srcm (ip s) / 16) with
+      | Err _ => True | _ => False end).
+    { intros kf. unfold safe_lit. cbv zeta. cbn [ip op dm negb andb orb].
       assert (E1 : (op s + get srcm (ip s) / 16 >? oend - MFLIMIT) || (ip s + 1 + get srcm (ip s) / 16 >? iend - (2 + 1 + LASTLITERALS)) = true) by fin.
       rewrite E1. cbv beta iota.
       assert (E2 : negb (ip s + 1 + get srcm (ip s) / 16 =? iend) || (op s + get srcm (ip s) / 16 >? oend) = true) by lia.
-      rewrite E2. exact I.
+      rewrite E2. exact I. }
+    destruct fast.
+    - unfold fast_top. cbv zeta.
+      destruct (get srcm (ip s) / 16 =? RUN_MASK) eqn:E15; cbv beta iota.
+      + unfold rvl. assert (E : true && (ip s + 1 >=? iend - RUN_MASK) = true) by fin. rewrite E. exact I.
+      + assert (E17 : (ip s + 1 <=? iend - (16 + 1)) = false) by lia. rewrite E17. apply Hlit.
+    - unfold safe_top. cbv zeta.
+      assert (Esc : negb (get srcm (ip s) / 16 =? RUN_MASK) && ((ip s + 1 <? shortiend iend) && (op s <=? shortoend oend)) = false) by fin.
+      rewrite Esc. cbv beta iota.
+      destruct (get srcm (ip s) / 16 =? RUN_MASK) eqn:E15; cbv beta iota.
+      + unfold rvl. assert (E : true && (ip s + 1 >=? iend - RUN_MASK) = true) by fin. rewrite E. exact I.
+      + apply Hlit.
   Qed.
 
-  (* ---------- the safe loop on arbitrary input ---------- *)
-  Lemma run_rev : forall fuel s (bs rout : list Z) f,
+  (* ---------- the decoding loop on arbitrary input, fast or safe loop ---------- *)
+  Lemma run_rev : forall fuel (fast : bool) s (bs rout : list Z) f,
     src_at srcm (ip s) bs -> bytes bs -> ip s + Z.of_nat (length bs) = iend -> 0 <= ip s ->
     0 <= op s -> out_at (vget (dm s)) (op s) rout -> avail (op s) rout -> (length bs < f)%nat ->
-    let '(r, s') := run false dict srcm iend oend lowPrefix rlow dictm dictSize fuel false s in
+    let '(r, s') := run false dict srcm iend oend lowPrefix rlow dictm dictSize fuel fast s in
     0 <= r ->
     zero_off f bs = true \/
     exists ss (last rout' : list Z),
       parse_seqs f bs = Some (ss, last) /\ apply_seqs rout ss = Some rout' /\
       r = op s + total_len ss last /\ r <= oend /\ out_at (vget (dm s')) r (rev last ++ rout').
   Proof.
-    induction fuel as [|fuel IH]; intros s bs rout f Hs Hb Hie Hip Hop O Hav Hf.
+    induction fuel as [|fuel IH]; intros fast s bs rout f Hs Hb Hie Hip Hop O Hav Hf.
     { cbn [run]. intros H. lia. }
     cbn [run].
+    assert (HI : err_ge (ip s) (if fast then fast_top false dict srcm iend oend lowPrefix rlow dictm dictSize s
+                                else safe_top false dict srcm iend oend lowPrefix rlow dictm dictSize s)).
+    { destruct fast; [apply fast_top_err_ip | apply safe_top_err_ip]; exact Hsrc. }
     destruct (Z_lt_ge_dec (ip s) iend) as [Hlt|Hge].
-    2:{ pose proof (safe_top_at_iend s ltac:(lia) Hip) as HE.
-        destruct (safe_top false dict srcm iend oend lowPrefix rlow dictm dictSize s) as [f' s'|s'|s'] eqn:E; try contradiction.
-        pose proof (safe_top_err_ip dict srcm iend oend lowPrefix rlow dictm dictSize Hsrc s) as HI. rewrite E in HI. intros H. lia. }
-    pose proof (safe_top_cases s bs rout Hs Hb Hie ltac:(lia) Hop O Hav) as HC.
-    pose proof (safe_top_err_ip dict srcm iend oend lowPrefix rlow dictm dictSize Hsrc s) as HI.
+    2:{ pose proof (step_at_iend fast s ltac:(lia) Hip) as HE.
+        destruct (if fast then fast_top false dict srcm iend oend lowPrefix rlow dictm dictSize s
+                  else safe_top false dict srcm iend oend lowPrefix rlow dictm dictSize s) as [f' s'|s'|s']; try contradiction.
+        cbn [err_ge] in HI. intros H. lia. }
+    assert (HC : top_post_any s bs rout (if fast then fast_top false dict srcm iend oend lowPrefix rlow dictm dictSize s
+                                         else safe_top false dict srcm iend oend lowPrefix rlow dictm dictSize s)).
+    { destruct fast; [apply fast_top_cases | apply top_post_weaken; apply safe_top_cases]; try assumption; lia. }
     destruct f as [|f]; [lia|].
-    destruct (safe_top false dict srcm iend oend lowPrefix rlow dictm dictSize s) as [f' s'|s'|s']; cbn [top_post] in HC.
+    destruct (if fast then fast_top false dict srcm iend oend lowPrefix rlow dictm dictSize s
+              else safe_top false dict srcm iend oend lowPrefix rlow dictm dictSize s) as [f' s'|s'|s']; cbn [top_post_any] in HC.
     - (* a complete sequence *)
-      destruct HC as (Hf' & tok & r & ll & r1 & lits & o1 & o2 & r3 & ml & r4 & Hbs & Hrl1 & Htk & Hrl2 & Hi' & Hlen4 & Hseq).
-      subst f' bs.
+      destruct HC as (tok & r & ll & r1 & lits & o1 & o2 & r3 & ml & r4 & Hbs & Hrl1 & Htk & Hrl2 & Hi' & Hlen4 & Hseq).
+      subst bs.
       destruct (bytes_cons _ _ Hb) as [Htok Hbr].
       destruct (src_at_cons _ _ _ _ Hs) as [_ Hsr].
       destruct (nibbles tok Htok) as [Hn1 Hn2].
@@ -537,7 +775,6 @@ Section Rev.
       assert (Hlr1 : length r1 = (length lits + S (S (length r3)))%nat) by (rewrite Er1, app_length; reflexivity).
       cbn [length] in Hie, Hlen4, Hf.
       assert (Ell : ll = Z.of_nat (length lits)) by lia.
-      (* the specification's view of this step *)
       assert (Hz : zero_off (S f) (tok :: r) = (o1 + 256 * o2 =? 0) || zero_off f r4).
       { cbn [zero_off]. unfold byte in *. rewrite Hrl1, Htk, Hrl2. reflexivity. }
       assert (Hp : parse_seqs (S f) (tok :: r) =
@@ -546,7 +783,7 @@ Section Rev.
                    | None => None end).
       { rewrite parse_seqs_S. unfold byte in *. rewrite Hrl1, Htk, Hrl2. reflexivity. }
       destruct Hseq as [Hz0|(Ho' & Hoe' & rout1 & Happ & O')].
-      { destruct (run false dict srcm iend oend lowPrefix rlow dictm dictSize fuel false s') as [rr s'']. intros _. left. rewrite Hz. rewrite Hz0. reflexivity. }
+      { destruct (run false dict srcm iend oend lowPrefix rlow dictm dictSize fuel f' s') as [rr s'']. intros _. left. rewrite Hz. rewrite Hz0. reflexivity. }
       assert (Hlen1 : length rout1 = (length rout + length lits + Z.to_nat (ml + 4))%nat).
       { unfold apply_seq in Happ. cbn [s_lits s_off s_mlen] in Happ.
         destruct (off_ok (o1 + 256 * o2) && (4 <=? ml + 4)); [|discriminate].
@@ -555,8 +792,8 @@ Section Rev.
       { replace (ip s') with (p1 + Z.of_nat (length lits) + 1 + 1 + (Z.of_nat (length r3) - Z.of_nat (length r4))) by (unfold p1; lia).
         exact Hs5. }
       assert (Hav' : avail (op s') rout1) by (unfold avail in *; unfold byte in *; lia).
-      specialize (IH s' r4 rout1 f Hs' Hb5 ltac:(lia) ltac:(lia) ltac:(lia) O' Hav' ltac:(lia)).
-      destruct (run false dict srcm iend oend lowPrefix rlow dictm dictSize fuel false s') as [rr s''].
+      specialize (IH f' s' r4 rout1 f Hs' Hb5 ltac:(lia) ltac:(lia) ltac:(lia) O' Hav' ltac:(lia)).
+      destruct (run false dict srcm iend oend lowPrefix rlow dictm dictSize fuel f' s') as [rr s''].
       intros Hr.
       destruct (IH Hr) as [Hzr|(ss & last & rout' & Hps & Hap & Hrr & Hro & Hout)].
       + left. rewrite Hz, Hzr. apply orb_true_r.
@@ -576,7 +813,7 @@ Section Rev.
       split; [rewrite parse_seqs_S; unfold byte in *; rewrite Hrl1, Htk; reflexivity|].
       split; [reflexivity|]. cbn [total_len fold_right]. unfold byte in *.
       split; [lia|]. split; [lia|]. replace (op s + Z.of_nat (length lits)) with (op s') by lia. exact O'.
-    - intros H. lia.
+    - cbn [err_ge] in HI. intros H. lia.
   Qed.
 
 End Rev.
